@@ -31,3 +31,29 @@ Theorem C09_loop_never_executes : forall cfg orc root help_text args r s' r',
   l_exec (rt_logs r') = l_exec (rt_logs r) /\ l_out (rt_logs r') = l_out (rt_logs r).
 Proof. exact parse_core_logs. Qed.
 Print Assumptions C09_loop_never_executes.
+
+(* ---- added by bin/mkprops (batch 2) ---- *)
+From GoFlags Require Import Base.Str Base.Utf8 Golib.Strings Golib.Strconv Model.Types Model.Tag Model.Scan Model.Lookup Model.Convert Model.State Model.Closest Model.Help Model.Parse Model.Ini Model.Complete.
+From GoFlags Require Import Proofs.RequiredSpec.
+
+(* in completion mode nothing is executed, no callback runs, no value is stored *)
+Theorem C09_completion_mode_executes_nothing :
+  forall (cfg : pconfig) (orc : oracles) (w : Scenario.world) (args : list str) 
+           (w' : Scenario.world) (items : option (list (str * str))),
+         Scenario.complete_args cfg orc w args = Ok (w', items) ->
+         l_exec (rt_logs (Scenario.w_rt w')) = l_exec (rt_logs (Scenario.w_rt w)) /\
+         l_out (rt_logs (Scenario.w_rt w')) = l_out (rt_logs (Scenario.w_rt w)) /\
+         l_calls (rt_logs (Scenario.w_rt w')) = l_calls (rt_logs (Scenario.w_rt w)) /\
+         l_unknown (rt_logs (Scenario.w_rt w')) = l_unknown (rt_logs (Scenario.w_rt w)) /\
+         rt_vals (Scenario.w_rt w') = rt_vals (Scenario.w_rt w) /\
+         rt_active (Scenario.w_rt w') = rt_active (Scenario.w_rt w) /\
+         (forall k : nat,
+          f_isset (rt_fl (Scenario.w_rt w') k) = f_isset (rt_fl (Scenario.w_rt w) k) /\
+          f_isdefault (rt_fl (Scenario.w_rt w') k) = f_isdefault (rt_fl (Scenario.w_rt w) k) /\
+          f_prevent (rt_fl (Scenario.w_rt w') k) = f_prevent (rt_fl (Scenario.w_rt w) k) /\
+          f_iniquote (rt_fl (Scenario.w_rt w') k) = f_iniquote (rt_fl (Scenario.w_rt w) k) /\
+          f_ininame (rt_fl (Scenario.w_rt w') k) = f_ininame (rt_fl (Scenario.w_rt w) k)) /\
+         Scenario.w_attached w' = Scenario.w_attached w /\ Scenario.w_internal w' = Scenario.w_internal w.
+Proof. exact @C09_completion_executes_nothing. Qed.
+Print Assumptions C09_completion_mode_executes_nothing.
+
